@@ -169,7 +169,7 @@ func (r *Receiver) SegmentHandlerFunc(w http.ResponseWriter, req *http.Request) 
 			}
 			seg := chunk.Segments[0]
 			moof := seg.Fragments[0].Moof
-			trd, ok := ch.trDatas[trName]
+			trd, ok := ch.getTrData(trName)
 			if !ok {
 				return fmt.Errorf("failed to find track data trName: %s", trName)
 			}
@@ -317,12 +317,14 @@ func (r *Receiver) SegmentHandlerFunc(w http.ResponseWriter, req *http.Request) 
 	// Receive raw segments
 	nrRead := 0
 	nrWritten := 0
+	ch.mu.Lock()
 	trD, ok := ch.trDatas[stream.trName]
 	if !ok {
 		log.Debug("New raw track data")
 		trD = &trData{name: stream.trName}
 		ch.trDatas[stream.trName] = trD
 	}
+	ch.mu.Unlock()
 
 	if trD.nrSegsReceived >= ch.receiveNrRaws && (contentLength == 0 || contentLength >= 4096) {
 		log.Debug("Max number of raw segments received. Will not store.", "nrSegsReceived",
